@@ -67,6 +67,8 @@ type victim struct {
 
 var victimBin string
 
+const singleCPUWorker = 5
+
 func startVictim(id int, sched string) (*victim, error) {
 	scratch := os.Getenv("VERIF_SCRATCH")
 	v := &victim{id: id, sched: sched, exited: make(chan struct{})}
@@ -77,6 +79,11 @@ func startVictim(id int, sched string) (*victim, error) {
 	}
 	v.cmd = exec.Command(victimBin)
 	v.cmd.Env = append(os.Environ(), "VICTIM_SCHEDULER="+sched)
+	if id == singleCPUWorker {
+		// a single-CPU deployment: process-wide pools and caches are then shared by every
+		// connection's goroutines, which makes cross-connection contamination deterministic
+		v.cmd.Env = append(v.cmd.Env, "GOMAXPROCS=1")
+	}
 	v.cmd.Stderr = ef
 	v.in, _ = v.cmd.StdinPipe()
 	op, _ := v.cmd.StdoutPipe()
@@ -319,13 +326,10 @@ func execCase(v *victim, tc *tcase) {
 
 var stallN int64
 
-// stalledDownloadReset: an HTTP/2 client requests a large download, never reads from its
-// socket (the proxy's socket write stalls with a DATA frame in flight), resets the stream,
-// and finally resets the TCP connection so that the stalled write fails.
+// stalledDownloadReset: an HTTP/2 client requests a large download; the proxy's socket write
+// stalls with a DATA frame in flight (injected at the listener: like a peer that stopped
+// reading), the client resets the stream, and then the stalled write fails.
 func stalledDownloadReset(c net.Conn) {
-	if tcp, ok := c.(*net.TCPConn); ok {
-		tcp.SetReadBuffer(4096)
-	}
 	t := tls.Client(c, &tls.Config{InsecureSkipVerify: true, ServerName: "front.example", NextProtos: []string{"h2"}})
 	c.SetDeadline(time.Now().Add(10 * time.Second))
 	if t.Handshake() != nil {
@@ -344,13 +348,10 @@ func stalledDownloadReset(c net.Conn) {
 	if _, err := t.Write(b.Bytes()); err != nil {
 		return
 	}
-	time.Sleep(700 * time.Millisecond)                    // kernel buffers fill, the proxy's write blocks
+	go io.Copy(io.Discard, t)
+	time.Sleep(400 * time.Millisecond)                    // the proxy's write of a DATA frame is now blocked
 	t.Write(h2peer.RawFrame(3, 0, 1, []byte{0, 0, 0, 8})) // RST_STREAM(CANCEL): the handler stops waiting
-	time.Sleep(150 * time.Millisecond)
-	if tcp, ok := c.(*net.TCPConn); ok {
-		tcp.SetLinger(0)
-	}
-	c.Close() // the stalled write fails
+	time.Sleep(900 * time.Millisecond)                    // the stalled write fails meanwhile
 }
 
 // boundaryFrames: every small HEADERS / DATA / PUSH_PROMISE frame around the padding and
@@ -633,8 +634,8 @@ func main() {
 			single = append(single, &tcase{Class: "stall", Step: st})
 		}
 	}
-	for rep := 0; rep < run.Pick(4, 40); rep++ {
-		single = append(single, &tcase{Class: "stalled-download-reset", Proto: "h2"})
+	for rep := 0; rep < run.Pick(5, 40); rep++ {
+		single = append(single, &tcase{Class: "stalled-download-reset", Proto: "h2", Fault: &rig.FaultPlan{Kind: "stall-write", MinLen: 8000, StallMs: 900}})
 	}
 	for _, raw := range boundaryFrames() {
 		batched = append(batched, &tcase{Class: "post-handshake-bytes", Proto: "h2", raw: raw})
@@ -727,7 +728,11 @@ func main() {
 			}
 			// singles
 			for i, tc := range single {
-				if i%nw != w {
+				if tc.Class == "stalled-download-reset" {
+					if w != singleCPUWorker {
+						continue
+					}
+				} else if i%nw != w {
 					continue
 				}
 				journal(tc)
